@@ -295,65 +295,105 @@ def native_replay(t0, H, dt, method, solver, two_site, rng_seed):
     return go
 
 
-def prove(run, key="C09", dts=(0.25, complex(0, -0.25)), density_operators=True):
+class _TimeUp(BaseException):
+    """wall-clock budget of a case exhausted (BaseException: passes through the totality handlers; running out of time is not a property of the code)"""
+
+
+def _starts(name, n, seed, tier, density_operators):
+    """deterministic start states of a (model, size): rebuilt identically in every worker"""
     from renormalizer.mps import Mpo
+    rng = np.random.default_rng([seed, n, 661, sum(map(ord, name))])
+    model, terms, sectors = Dn.hamiltonian(name, n, rng)
+    H = Mpo(model, terms)
+    q = sectors[len(sectors) // 2]
+    a0 = U.make_state(model, q, 2, rng)
+    if a0 is None:
+        return H, []
+    starts = [("right-going", a0)]
+    b0 = a0.copy()
+    b0.canonicalise()
+    if b0.to_right != a0.to_right:
+        starts.append(("left-going", b0))
+    p0 = U.make_state(model, q, 1, rng)        # product state: every interior bond has dimension one (1x1 bond problems)
+    if p0 is not None:
+        starts.append(("product state", p0))
+    if density_operators and name == "spinqn" and (n <= 3 or tier != "quick"):      # (the dense space of a density operator is the square of the state's)
+        from renormalizer.mps import MpDm
+        starts.append(("density operator", MpDm.from_mps(a0)))      # four-index site tensors: H acts on the physical index, the ancilla is a spectator
+    return H, starts
+
+
+def worker(case, led):
+    import signal
+    name, n, sname, method, two_site, dts, density_operators, budget = case
+
+    def _alarm(*a):
+        raise _TimeUp()
+    old = signal.signal(signal.SIGALRM, _alarm)
+    signal.alarm(budget)
+    try:
+        _worker(case, led)
+    except _TimeUp:
+        led.calls = [c for c in led.calls if c[0] != "crash"]
+        led.extra["skipped"] = [[name, n, sname, method]]
+    finally:
+        signal.alarm(0)
+        signal.signal(signal.SIGALRM, old)
+
+
+def _worker(case, led):
+    name, n, sname, method, two_site, dts, density_operators, _budget = case
+    H, starts = _starts(name, n, led.seed, led.tier, density_operators)
+    t0 = dict(starts)[sname]
+    fn = f"Mps._evolve_{method}"
+    for dt in dts:
+        for solver in ("krylov", "RK45"):
+            led.extra["ncase"] = led.extra.get("ncase", 0) + 1
+            vf = VarFactory()
+            a = SH.symbolic_state(t0, vf)
+            tag = f"{method}:{solver}@{name}{n}:{sname}:dt={dt}"
+            cs = {"model": name, "nsites": n, "start": sname, "dt": str(dt), "method": method, "ivp_solver": solver}
+            rec = Recorder(vf)
+            rec.vf.n = max(getattr(vf, "n", 0), 0) + 50000     # indeterminates returned by local problems: away from the state's own variables
+            replay = native_replay(t0, H, dt, method, solver, two_site, [led.seed, n, 17])
+            with SH.kernel_stub_mode():
+                Hs = SH.numeric_to_symbolic_const(H)
+                Hd, va = S.dense(Hs), flat(S.dense(a))
+                try:
+                    r = execute(a.copy(), Hs, dt, method, solver, rec)
+                except Exception as e:
+                    decide_true(led, f"post:{fn}:total[{tag}]", fn, False, f"raised on symbolic tensors: {type(e).__name__}: {e}", cs, numeric_replay=replay)
+                    continue
+                led.extra["ncalls"] = led.extra.get("ncalls", 0) + len(rec.calls)
+                for cl, ctag, lhs, rhs, msg in clauses(rec, schedule(n, bool(t0.to_right), two_site), a, Hd, va, r, dt, two_site, True):
+                    pre = "post:" + fn if cl.startswith("result_") else "pre:local_propagator"
+                    oid = f"{pre}:{cl}[{tag}{ctag}]"
+                    if msg is not None:
+                        decide_true(led, oid, fn, lhs == rhs, msg, cs, fields={"method": method}, numeric_replay=replay)
+                    else:
+                        decide(led, oid, fn, lhs, rhs, cs, fields={"method": method}, numeric_replay=replay)
+                decide(led, f"frame:{fn}:input[{tag}]", fn, flat(S.dense(a)), va, cs)
+                bad = S.qnv_violations(r)
+                decide_true(led, f"post:{fn}:qn_valid[{tag}]", fn, not bad, f"labels of the result invalid: {bad[:2]}", cs)
+            native_pass(led, f"rtc:{fn}:local_problems_with_the_real_kernels_incl_orthonormal_frames", fn, replay, (tag,), cs)
+
+
+def prove(run, key="C09", dts=(0.25, complex(0, -0.25)), density_operators=True):
+    from vk.symx.harness import pool_cases
     shapes = [("spinqn", 3), ("holstein", 3)] if run.tier == "quick" else [("spinqn", 3), ("spinqn", 4), ("holstein", 3), ("spin2qn", 3), ("spin", 3), ("spinqn", 2), ("spin", 1)]
-    ncase = ncalls = 0
+    cases = []
     for name, n in shapes:
-        rng = np.random.default_rng([run.seed, n, 661, sum(map(ord, name))])
-        model, terms, sectors = Dn.hamiltonian(name, n, rng)
-        H = Mpo(model, terms)
-        q = sectors[len(sectors) // 2]
-        a0 = U.make_state(model, q, 2, rng)
-        if a0 is None:
-            continue
-        starts = [("right-going", a0)]
-        b0 = a0.copy()
-        b0.canonicalise()
-        if b0.to_right != a0.to_right:
-            starts.append(("left-going", b0))
-        p0 = U.make_state(model, q, 1, rng)        # product state: every interior bond has dimension one (1x1 bond problems)
-        if p0 is not None:
-            starts.append(("product state", p0))
-        if density_operators and name == "spinqn" and (n <= 3 or run.tier != "quick"):      # (the dense space of a density operator is the square of the state's)
-            from renormalizer.mps import MpDm
-            starts.append(("density operator", MpDm.from_mps(a0)))      # four-index site tensors: H acts on the physical index, the ancilla is a spectator
-        for sname, t0 in starts:
+        _, starts = _starts(name, n, run.seed, run.tier, density_operators)
+        for sname, _t0 in starts:
             for method, two_site in (("tdvp_ps", False), ("tdvp_ps2", True)):
                 if two_site and n < 2:
                     continue
-                for dt in dts:
-                    for solver in ("krylov", "RK45"):
-                        ncase += 1
-                        vf = VarFactory()
-                        a = SH.symbolic_state(t0, vf)
-                        tag = f"{method}:{solver}@{name}{n}:{sname}:dt={dt}"
-                        case = {"model": name, "nsites": n, "start": sname, "dt": str(dt), "method": method, "ivp_solver": solver}
-                        fn = f"Mps._evolve_{method}"
-                        rec = Recorder(vf)
-                        rec.vf.n = max(getattr(vf, "n", 0), 0) + 50000     # indeterminates returned by local problems: away from the state's own variables
-                        replay = native_replay(t0, H, dt, method, solver, two_site, [run.seed, n, 17])
-                        with SH.kernel_stub_mode():
-                            Hs = SH.numeric_to_symbolic_const(H)
-                            Hd, va = S.dense(Hs), flat(S.dense(a))
-                            try:
-                                r = execute(a.copy(), Hs, dt, method, solver, rec)
-                            except Exception as e:
-                                decide_true(run, f"post:{fn}:total[{tag}]", fn, False, f"raised on symbolic tensors: {type(e).__name__}: {e}", case, numeric_replay=replay)
-                                continue
-                            ncalls += len(rec.calls)
-                            for cl, ctag, lhs, rhs, msg in clauses(rec, schedule(n, bool(t0.to_right), two_site), a, Hd, va, r, dt, two_site, True):
-                                pre = "post:" + fn if cl.startswith("result_") else "pre:local_propagator"
-                                oid = f"{pre}:{cl}[{tag}{ctag}]"
-                                if msg is not None:
-                                    decide_true(run, oid, fn, lhs == rhs, msg, case, fields={"method": method}, numeric_replay=replay)
-                                else:
-                                    decide(run, oid, fn, lhs, rhs, case, fields={"method": method}, numeric_replay=replay)
-                            decide(run, f"frame:{fn}:input[{tag}]", fn, flat(S.dense(a)), va, case)
-                            bad = S.qnv_violations(r)
-                            decide_true(run, f"post:{fn}:qn_valid[{tag}]", fn, not bad, f"labels of the result invalid: {bad[:2]}", case)
-                        native_pass(run, f"rtc:{fn}:local_problems_with_the_real_kernels_incl_orthonormal_frames", fn, replay, (tag,), case)
-    run.extra.setdefault("symx", {})[key + "_tdvp"] = {"scheme_cases": ncase, "local_problems": ncalls, "kernel_stubs": SH.KERNEL_STUBS, "shims": SH.SHIMS,
+                cases.append((name, n, sname, method, two_site, tuple(dts), density_operators, 60 if run.tier == "quick" else 600))
+    leds = pool_cases(run, worker, cases)
+    ncase = sum(l.extra.get("ncase", 0) for l in leds)
+    run.extra.setdefault("symx", {})[key + "_tdvp"] = {"scheme_cases": ncase, "local_problems": sum(l.extra.get("ncalls", 0) for l in leds),
+                                                      "cases_skipped_for_time": [c for l in leds for c in l.extra.get("skipped", [])],
+                                                      "kernel_stubs": SH.KERNEL_STUBS, "shims": SH.SHIMS,
                                                       "local_propagator_stub": "expm_krylov / solve_ivp inside renormalizer.mps.mps return fresh indeterminates on the structural "
                                                                                "support of span{v, Av, A^2 v, A^3 v} and record (A as a matrix, time, v, tensors of the working state)"}
     if ncase == 0:
